@@ -54,6 +54,26 @@ var (
 	c01srv5 = &type5.BatchedPrivateTokenRequest{}
 )
 
+// rejectedFirst hands damaged copies of an honest response to a finalizer before the genuine one is delivered: the last bit
+// flipped (the DLEQ proof of types 1 and 5, the signature of type 2), and the response cut by one byte. It reports whether
+// a damaged response was accepted; what matters to the caller is that the state still finalizes the genuine one afterwards.
+func rejectedFirst(resp []byte, fin func([]byte) error) bool {
+	if len(resp) == 0 {
+		return false
+	}
+	flipped := append([]byte{}, resp...)
+	flipped[len(flipped)-1] ^= 1
+	accepted := false
+	protect(func() string {
+		if fin(flipped) == nil {
+			accepted = true
+		}
+		return ""
+	})
+	protect(func() string { fin(resp[:len(resp)-1]); return "" })
+	return accepted
+}
+
 func scribbleAll(bs ...[]byte) {
 	for _, b := range bs {
 		for i := range b {
@@ -94,6 +114,11 @@ func init() {
 		if err != nil {
 			return "err-evaluate"
 		}
+		// a damaged response arrives first (proof bit flipped, then truncated): it is refused, and the state still finalizes
+		// the genuine response afterwards (round 6)
+		if rejectedFirst(resp, func(b []byte) error { _, err := st.FinalizeToken(b); return err }) {
+			return "err-damaged-response-accepted"
+		}
 		tok, err := st.FinalizeToken(resp)
 		if err != nil {
 			return "err-finalize"
@@ -129,6 +154,9 @@ func init() {
 		resp, err := iss.Evaluate(rq)
 		if err != nil {
 			return "err-evaluate"
+		}
+		if rejectedFirst(resp, func(b []byte) error { _, err := st.FinalizeToken(b); return err }) {
+			return "err-damaged-response-accepted"
 		}
 		tok, err := st.FinalizeToken(resp)
 		if err != nil {
@@ -168,6 +196,9 @@ func init() {
 		resp, err := iss.Evaluate(rq)
 		if err != nil {
 			return "err-evaluate"
+		}
+		if rejectedFirst(resp, func(b []byte) error { _, err := st.FinalizeTokens(b); return err }) {
+			return "err-damaged-response-accepted"
 		}
 		toks, err := st.FinalizeTokens(resp)
 		if err != nil {
